@@ -118,6 +118,7 @@ def cases(rng, tier):
         sel = [ents[j] for j in (0, 1, len(ents) // 2, len(ents) - 2, len(ents) - 1)]
         ts = ",".join(fhex(t) for t in [float(e["cum"]) for e in sel] + [float(ents[-1]["cum"]) + 1, -1.0, float("inf")])
         yield ("rth %s 0,255,256,16383,16384,%d,%d,70000 %s" % (hexs(b), len(pts) - 1, len(pts), ts), "long-plan")
+    yield ("rth empty 0,1,70000 %s" % ",".join(fhex(t) for t in (-1.0, 0.0, 0.5, 10.0, 1e9, float("inf"), float("nan"))), "init-empty")
     for i in range(n):
         big = (i % 4 == 0)
         scale, pts, ents = rand_plan(rng, big)
